@@ -110,6 +110,12 @@ fn runs_override(default: u64) -> u64 {
     std::env::var("KSIM_RUNS").ok().and_then(|s| s.parse().ok()).unwrap_or(default)
 }
 
+/// the world's completely enumerated sweep (fault sweep / exhaustion sweep) as a stage
+fn sw(world: &'static str) -> Stage {
+    let n = with_world!(world, W => <W as World>::sweep_len());
+    Stage { world, runs: n, sweep: true }
+}
+
 pub fn stages_for(prop: &str, tier: Tier) -> Option<Vec<Stage>> {
     let q = tier == Tier::Quick;
     let st = |world: &'static str, quick: u64, thorough: u64| Stage { world, runs: runs_override(if q { quick } else { thorough }), sweep: false };
@@ -117,6 +123,7 @@ pub fn stages_for(prop: &str, tier: Tier) -> Option<Vec<Stage>> {
         "C13" => vec![st("parser", 4_000_000, 40_000_000)],
         "C14" => vec![st("parser", 4_000_000, 40_000_000)],
         "C01" => vec![
+            sw("splits"), sw("chars"), sw("slices_u8"), sw("slices_zst"), sw("slices_big"), sw("slices_odd"), sw("ranges_char"), sw("ranges_u8"), sw("ranges_i128"),
             st("parser", 400_000, 8_000_000),
             st("splits", 600_000, 12_000_000),
             st("chars", 400_000, 8_000_000),
@@ -134,16 +141,18 @@ pub fn stages_for(prop: &str, tier: Tier) -> Option<Vec<Stage>> {
             let sweep_len = <crate::worlds::byvalue::ByValueWorld as World>::sweep_len();
             vec![Stage { world: "byvalue", runs: sweep_len, sweep: true }, st("byvalue", 3_000_000, 40_000_000)]
         }
-        "C07" => vec![st("chars", 6_000_000, 60_000_000)],
-        "C06" => vec![st("splits", 6_000_000, 60_000_000)],
+        "C07" => vec![sw("chars"), st("chars", 6_000_000, 60_000_000)],
+        "C06" => vec![sw("splits"), st("splits", 6_000_000, 60_000_000)],
         "C09" => vec![
+            sw("ranges_u8"), sw("ranges_i8"), sw("ranges_char"), sw("ranges_u16"), sw("ranges_i16"), sw("ranges_u32"), sw("ranges_i32"),
+            sw("ranges_u64"), sw("ranges_i64"), sw("ranges_u128"), sw("ranges_i128"), sw("ranges_usize"), sw("ranges_isize"),
             st("ranges_u8", 1_200_000, 12_000_000), st("ranges_i8", 1_200_000, 12_000_000), st("ranges_char", 900_000, 9_000_000),
             st("ranges_u16", 300_000, 3_000_000), st("ranges_i16", 300_000, 3_000_000), st("ranges_u32", 300_000, 3_000_000),
             st("ranges_i32", 300_000, 3_000_000), st("ranges_u64", 300_000, 3_000_000), st("ranges_i64", 300_000, 3_000_000),
             st("ranges_u128", 300_000, 3_000_000), st("ranges_i128", 300_000, 3_000_000), st("ranges_usize", 300_000, 3_000_000),
             st("ranges_isize", 300_000, 3_000_000),
         ],
-        "C08" => vec![st("slices_u8", 4_000_000, 40_000_000), st("slices_zst", 1_500_000, 15_000_000), st("slices_big", 1_500_000, 15_000_000), st("slices_odd", 1_500_000, 15_000_000)],
+        "C08" => vec![sw("slices_u8"), sw("slices_zst"), sw("slices_big"), sw("slices_odd"), st("slices_u8", 4_000_000, 40_000_000), st("slices_zst", 1_500_000, 15_000_000), st("slices_big", 1_500_000, 15_000_000), st("slices_odd", 1_500_000, 15_000_000)],
         _ => return None,
     })
 }
@@ -288,11 +297,19 @@ pub fn extra_stages(prop: &str, tier: Tier, seed: u64, _scratch: &Path) -> Extra
     let seg = |world: &'static str, n: u64| Segment { world, from: 0, to: n * scale, sweep: false, stride: 1, offset: 0 };
     let sweep_len = <crate::worlds::byvalue::ByValueWorld as World>::sweep_len();
     let stride = if quick { 3 } else { 1 };
+    let swseg = |world: &'static str, quick_stride: u64| {
+        let n = with_world!(world, W => <W as World>::sweep_len());
+        let st = if quick { quick_stride } else { 1 };
+        Segment { world, from: 0, to: n, sweep: true, stride: st, offset: seed % st }
+    };
     // the destructure! cells sit at the end of the sweep list and always run under Miri
     let n_destr = <crate::worlds::byvalue::ByValueWorld as World>::sweep_names().iter().filter(|n| n.starts_with("destructure/")).count() as u64;
     let segments = vec![
         Segment { world: "byvalue", from: 0, to: sweep_len - n_destr, sweep: true, stride, offset: seed % stride },
         Segment { world: "byvalue", from: sweep_len - n_destr, to: sweep_len, sweep: true, stride: 1, offset: 0 },
+        // exhaustion sweeps of the iterator worlds (a seed-chosen fraction in quick, all cells in thorough)
+        swseg("slices_u8", 4), swseg("slices_odd", 12), swseg("slices_big", 12), swseg("chars", 2), swseg("splits", 4),
+        swseg("ranges_char", 16), swseg("ranges_u8", 32), swseg("ranges_i128", 32),
         seg("byvalue", 64),
         seg("parser", 32),
         seg("splits", 32),
